@@ -404,9 +404,14 @@ class FileStoreRequestTlv(FileStoreRequestBase, AbstractTlvBase):
 
     @classmethod
     def _set_fields(cls, instance: FileStoreRequestTlv, raw_data: bytes):
-        action_code, first_name, _, _, second_name = cls._common_unpacker(
+        action_code, first_name, _, idx, second_name = cls._common_unpacker(
             raw_bytes=raw_data
         )
+        if idx != len(raw_data):
+            raise ValueError(
+                f"filestore request TLV value has {len(raw_data)} bytes, but its fields"
+                f" occupy {idx} bytes"
+            )
         instance.action_code = action_code
         instance.first_file_name = first_name
         if second_name is not None:
@@ -500,7 +505,13 @@ class FileStoreResponseTlv(FileStoreRequestBase, AbstractTlvBase):
         instance.status_code = status_code_named
         if second_name is not None:
             instance.second_file_name = second_name
-        instance.filestore_msg = CfdpLv.unpack(data[idx:])
+        filestore_msg = CfdpLv.unpack(data[idx:])
+        if idx + filestore_msg.packet_len != len(data):
+            raise ValueError(
+                f"filestore response TLV value has {len(data)} bytes, but its fields"
+                f" occupy {idx + filestore_msg.packet_len} bytes"
+            )
+        instance.filestore_msg = filestore_msg
 
 
 class EntityIdTlv(AbstractTlvBase):
